@@ -43,3 +43,212 @@ for _fn, _path in (("check_window_length", VAL), ("check_step_length", VF)):
              raises=[("ValueError", (lambda nm: lambda A: Not(Or(getattr(A, nm) is None, is_pos_int(getattr(A, nm)))))(
                  "window_length" if _fn == "check_window_length" else "step_length"))],
              returns=(lambda nm: lambda A: getattr(A, nm))("window_length" if _fn == "check_window_length" else "step_length"))
+
+
+# ------------------------------------------------------------------------------------------ more helpers
+import z3
+from pyvc import ops
+from pyvc.values import SArr, SList, SSeries, SFrame, SObj, Opaque
+
+VS = "sktime/utils/validation/series.py"
+Z = ops.to_z3
+
+contract(f"{VF}::check_sp", "C20", cases=[c + "|" + e for c in SCALAR_CASES for e in ("plain", "list")],
+         inputs=lambda B, case: {"sp": scalar_input("sp")(B, case.split("|")[0])["sp"], "enforce_list": case.endswith("list")},
+         raises=[("ValueError", lambda A: Not(Or(A.sp is None, is_pos_int(A.sp), A.enforce_list and isinstance(A.sp, SList))))],
+         ensures=[("returns-argument-or-singleton-list",
+                   lambda A, r: (isinstance(r, SList) and len(r.items) == 1 and r.items[0] is A.sp) if (A.enforce_list and is_intlike(A.sp)) else (r is A.sp))])
+
+
+def index_input(B, case, name="index"):
+    """time index cases: sorted / unsorted / empty integer indexes, a range index, an unsupported index type, numpy"""
+    if case in ("Int64Index", "RangeIndex", "ndarray"):
+        a = B.arr(name, kind=case)
+        return a
+    if case == "Float64Index":
+        a = B.arr(name, dtype="real", kind="Float64Index")
+        return a
+    if case == "list":
+        return SList([B.int(name + "0")], "list")
+    raise KeyError(case)
+
+
+def monotone(idx):
+    return sorted_nondecr(idx)
+
+
+contract(f"{VS}::check_time_index", "C20,C01", cases=["Int64Index", "RangeIndex", "ndarray", "Float64Index", "Int64Index|allow_empty"],
+         inputs=lambda B, case: {"index": index_input(B, case.split("|")[0]), "allow_empty": "allow_empty" in case, "enforce_index_type": None},
+         raises=[("NotImplementedError", lambda A: A.index.kind == "Float64Index"),
+                 ("ValueError", lambda A: Or(Not(monotone(A.index)), (not A.allow_empty) and Eq(A.index.len, 0)) if A.index.kind != "Float64Index" else False)],
+         returns=lambda A: A.index)
+
+
+def data_input(B, case):
+    """Z for check_series: case = container[|index kind]"""
+    cont = case.split("|")[0]
+    ik = case.split("|")[1] if "|" in case else "Int64Index"
+    if cont == "Series":
+        idx = index_input(B, ik)
+        return SSeries(idx, B.arr("values", n=idx.len, dtype="real"))
+    if cont == "DataFrame":
+        idx = index_input(B, ik)
+        return SFrame(idx, B.arr("values", shape=(idx.len, B.int("ncols", 1)), dtype="real"))
+    if cont == "ndarray1":
+        return B.arr("values", dtype="real")
+    if cont == "ndarray2":
+        return B.arr("values", ndim=2, dtype="real")
+    if cont == "list":
+        return SList([B.real("v0")], "list")
+    if cont == "None":
+        return None
+    raise KeyError(cont)
+
+
+def index_ok(Zv, allow_empty):
+    idx = Zv.index
+    return And(monotone(idx), True if allow_empty else Z(idx.len) >= 1)
+
+
+DATA_CASES = ["Series|Int64Index", "Series|RangeIndex", "Series|Float64Index", "DataFrame|Int64Index", "ndarray1", "ndarray2", "list", "None"]
+
+
+def _cs_inputs(B, case):
+    parts = case.split("/")
+    d = {"Z": data_input(B, parts[0]), "enforce_univariate": "uni" in parts[1:], "allow_empty": "empty" in parts[1:],
+         "allow_numpy": "nonumpy" not in parts[1:], "enforce_index_type": None}
+    return d
+
+
+def _cs_type_error(A):
+    Zv = A.Z
+    if isinstance(Zv, (SSeries, SFrame)):
+        return False
+    if isinstance(Zv, SArr) and Zv.kind == "ndarray":
+        return not A.allow_numpy
+    return True
+
+
+def _cs_value_error(A):
+    Zv = A.Z
+    if _cs_type_error(A):
+        return False
+    multivariate = isinstance(Zv, SFrame) or (isinstance(Zv, SArr) and Zv.ndim > 1)
+    if A.enforce_univariate and multivariate:
+        return True
+    if isinstance(Zv, (SSeries, SFrame)) and Zv.index.kind != "Float64Index":
+        return Not(index_ok(Zv, A.allow_empty))
+    return False
+
+
+def _cs_notimpl(A):
+    Zv = A.Z
+    if _cs_type_error(A) or not isinstance(Zv, (SSeries, SFrame)):
+        return False
+    if A.enforce_univariate and isinstance(Zv, SFrame):
+        return False
+    return Zv.index.kind == "Float64Index"
+
+
+contract(f"{VS}::check_series", "C20", cases=[c + opt for c in DATA_CASES for opt in ("/", "/uni", "/uni/nonumpy", "/empty")],
+         inputs=_cs_inputs,
+         raises=[("TypeError", _cs_type_error), ("ValueError", _cs_value_error), ("NotImplementedError", _cs_notimpl)],
+         returns=lambda A: A.Z, ensures=[("returns-same-object", lambda A, r: r is A.Z)],
+         notes=["check_series returns its argument itself (identity): any later in-place write is a write to the caller's data"])
+
+
+def _cy_inputs(B, case):
+    parts = case.split("/")
+    return {"y": data_input(B, parts[0]), "allow_empty": "empty" in parts[1:], "allow_constant": True, "enforce_index_type": None}
+
+
+contract(f"{VF}::check_y", "C20", cases=[c + opt for c in DATA_CASES for opt in ("/", "/empty")], inputs=_cy_inputs,
+         raises=[("TypeError", lambda A: not isinstance(A.y, (SSeries, SFrame))),
+                 ("ValueError", lambda A: (True if isinstance(A.y, SFrame) else (Not(index_ok(A.y, A.allow_empty)) if A.y.index.kind != "Float64Index" else False))
+                  if isinstance(A.y, (SSeries, SFrame)) else False),
+                 ("NotImplementedError", lambda A: isinstance(A.y, SSeries) and A.y.index.kind == "Float64Index")],
+         returns=lambda A: A.y, ensures=[("returns-same-object", lambda A, r: r is A.y)])
+
+
+def _ceti_inputs(B, case):
+    y = data_input(B, "Series|Int64Index")
+    if case == "same-index":
+        X = SFrame(y.index, B.arr("Xv", shape=(y.index.len, B.int("ncols", 1)), dtype="real"))
+    else:
+        idx2 = B.arr("index2", kind="Int64Index")
+        X = SFrame(idx2, B.arr("Xv", shape=(idx2.len, B.int("ncols", 1)), dtype="real"))
+    from pyvc.values import SList as _SL
+    return {"ys": _SL([y, X], "tuple")}
+
+
+contract(f"{VS}::check_equal_time_index", "C20", cases=["same-index", "other-index"], inputs=_ceti_inputs,
+         raises=[("ValueError", lambda A: Or(Not(index_ok(A.ys.items[0], False)), Not(index_ok(A.ys.items[1], False)),
+                                             Not(equiv(A.ys.items[0].index, A.ys.items[1].index))))],
+         returns=lambda A: None)
+
+
+# ---- check_fh --------------------------------------------------------------------------------------
+from contracts.C02_fh import sym_fh, vals, sym_values, INT_SEQ
+
+
+def _cfh_inputs(B, case):
+    kind, enf = case.split("/")
+    if kind == "FH-rel":
+        fh = sym_fh(B, "fh", relative=True)
+    elif kind == "FH-abs":
+        fh = sym_fh(B, "fh", relative=False)
+    else:
+        fh = sym_values(B, kind, "fh")
+    return {"fh": fh, "enforce_relative": enf == "enforce"}
+
+
+def _cfh_type_error(A):
+    f = A.fh
+    if isinstance(f, SObj):
+        return False
+    if isinstance(f, SArr):
+        return f.kind == "tuple"
+    if isinstance(f, SList):
+        return any(not is_intlike(x) for x in f.items)
+    return not is_intlike(f)
+
+
+def _cfh_value_error(A):
+    f = A.fh
+    if _cfh_type_error(A):
+        return False
+    if isinstance(f, SObj):
+        return Or(Eq(vals(f).len, 0), A.enforce_relative and not f.attrs["_is_relative"])
+    if isinstance(f, SArr):
+        return Or(Not(pairwise_distinct(f)), Eq(f.len, 0))
+    return False
+
+
+contract(f"{VF}::check_fh", "C20,C01", cases=[k + "/" + e for k in ("FH-rel", "FH-abs", "int", "list", "ndarray", "Int64Index", "RangeIndex+1",
+                                                                     "list-fractional", "str", "float", "None", "tuple") for e in ("plain", "enforce")],
+         inputs=_cfh_inputs, raises=[("TypeError", _cfh_type_error), ("ValueError", _cfh_value_error)],
+         ensures=[("returns-a-nonempty-horizon", lambda A, r: And(isinstance(r, SObj) and r.cls.name == "ForecastingHorizon",
+                                                                  Z(vals(r).len) >= 1, (r is A.fh) if isinstance(A.fh, SObj) else r.attrs["_is_relative"] is True)
+                   if isinstance(r, SObj) else False)])
+
+
+# ---- check_cutoffs / check_alpha / strategies ------------------------------------------------------
+
+contract(f"{VF}::check_cutoffs", "C20,C01", cases=["ndarray", "Int64Index", "list", "None", "ndarray-float"],
+         inputs=lambda B, case: {"cutoffs": (B.arr("cutoffs", kind=case) if case in ("ndarray", "Int64Index") else
+                                             (B.arr("cutoffs", dtype="real") if case == "ndarray-float" else (SList([B.int("c0")], "list") if case == "list" else None)))},
+         raises=[("ValueError", lambda A: Or(not isinstance(A.cutoffs, SArr), Eq(A.cutoffs.len, 0) if isinstance(A.cutoffs, SArr) and A.cutoffs.dtype == "int" else False)),
+                 ("AssertionError", lambda A: isinstance(A.cutoffs, SArr) and A.cutoffs.dtype != "int")],
+         returns=lambda A: _sorted(A.cutoffs), ensures=[("sorted", lambda A, r: sorted_nondecr(r))],
+         notes=["KNOWN: a float-typed cutoffs array is rejected with a bare AssertionError, not ValueError/TypeError (see known findings)"])
+
+def _sorted(a):
+    from pyvc.libnp import sort_arr
+    from pyvc import spec as _S
+    return sort_arr(_S.CUR, a)
+
+
+ME = "sktime/forecasting/model_evaluation/_functions.py"
+contract(f"{ME}::_check_strategy", "C20,C07", cases=["refit", "update", "other", "None"],
+         inputs=lambda B, case: {"strategy": {"refit": "refit", "update": "update", "other": "refitt", "None": None}[case]},
+         raises=[("ValueError", lambda A: A.strategy not in ("refit", "update"))], returns=lambda A: None)
